@@ -831,7 +831,25 @@ func describe(v Value) string {
 	case sym.Sc:
 		return v.String()
 	case Slice:
-		return fmt.Sprintf("slice(off=%s,len=%s)", v.Off, v.Len)
+		return fmt.Sprintf("slice(off=%s,len=%s,cap=%s,nil=%v)", v.Off, v.Len, v.Cap, v.St == nil)
+	case *Value:
+		if v == nil {
+			return "nil-ptr"
+		}
+		return fmt.Sprintf("&(%s)", describe(*v))
+	case Struct:
+		return fmt.Sprintf("struct/%d", len(v))
+	case Iface:
+		if v.T == nil {
+			return "nil-iface"
+		}
+		return fmt.Sprintf("iface(%v)", v.T)
+	case Tuple:
+		s := "("
+		for _, x := range v {
+			s += describe(x) + ", "
+		}
+		return s + ")"
 	}
 	return fmt.Sprintf("%T", v)
 }
